@@ -21,6 +21,8 @@ pub struct DocCase {
     pub name_char: Option<(u32, bool)>,
 }
 
+/// texts without any paragraph (indexed through DocCase::name_char code points below 16)
+pub const ZERO_PARA: [&str; 5] = ["", "\n", "# c\n", "\n\n# c\n\n", "# c"];
 pub const JUNK: [&str; 4] = ["junk", "junk more", "-x: y", "é: v"];
 
 pub fn k_for(tier: Tier, sk: Skel) -> usize {
@@ -171,6 +173,9 @@ impl Prop for C03 {
         if shard == doc_shards(true).len() {
             // every printable ASCII character as a field-name character (first position where deb822 allows it)
             let sk = Skel { paras: 1, fields: 1 };
+            for i in 0..ZERO_PARA.len() {
+                f(&DocCase { skel: sk, v: vec![], junk: None, name_char: Some((i as u32, false)) });
+            }
             for cp in 33u32..127 {
                 let ch = char::from_u32(cp).unwrap();
                 if ch == ':' {
@@ -220,6 +225,21 @@ impl Prop for C03 {
         }
     }
     fn check(&self, c: &DocCase, st: &mut Stats) -> Vec<Viol> {
+        if let Some((cp, _)) = c.name_char {
+            if (cp as usize) < ZERO_PARA.len() {
+                // texts without any paragraph: no paragraph is reported; the single-paragraph reader gives an error (no panic)
+                let text = ZERO_PARA[cp as usize];
+                st.nontrivial += 1;
+                return match guard(budget_for(text.len()), || (Deb822::from_str(text).map(|d| d.paragraphs().count()), Paragraph::from_str(text).map(|p| p.items().count()))) {
+                    Ok((Ok(0), Err(_))) => {
+                        st.outcome("no-paragraph-ok");
+                        vec![]
+                    }
+                    Ok((d, p)) => vec![viol("no-paragraph", format!("text {:?}: Deb822::from_str reports {:?} paragraphs, Paragraph::from_str {:?} (expected 0 paragraphs and an error)", text, d.map_err(|e| e.to_string()), p.map_err(|e| e.to_string())))],
+                    Err(p) => vec![viol("panic", panic_detail(&p))],
+                };
+            }
+        }
         if let Some((cp, first)) = c.name_char {
             let ch = char::from_u32(cp).unwrap_or('A');
             let name = if first { format!("{}x", ch) } else { format!("X{}y", ch) };
